@@ -2,16 +2,32 @@
 (***************************************************************************)
 (* L1 contract "a master sees a flat byte-addressable memory", property    *)
 (* C07 (Wishbone data-width converters, write-back cache, remapper, CSR    *)
-(* bridge, SRAM) - also reused for the bus bridges of C09.                 *)
+(* bridge, SRAM), classic cycles.                                          *)
 (*                                                                         *)
 (* One step = one clock cycle on the master side.                          *)
-(*   iv = <<req, adr, we, sel, data>>  req: 0 idle, 1 cyc & stb            *)
+(*   iv = <<req, adr, we, sel, data>>                                      *)
+(*        req: 0 idle (all lines 0), 1 cyc & stb (a request),              *)
+(*             2 cyc & ~stb, 3 ~cyc & stb: NO request, but the other lines *)
+(*             carry a write-shaped pattern (only with c.junk = 1).  Code 3 *)
+(*             is what every slave behind wishbone.Decoder /               *)
+(*             InterconnectShared sees while ANOTHER slave is addressed    *)
+(*             (stb, adr, we, sel, dat_w are shared, only cyc is gated);   *)
+(*             code 2 is a master that keeps cyc between the transfers of  *)
+(*             a block / read-modify-write cycle.  B4 rule 3.25/3.35: a    *)
+(*             slave responds to cyc AND stb only.                         *)
+(*        adr: word index (the harness shifts it for byte-addressed buses) *)
 (*        sel, data: bit masks over the L byte lanes of the master bus;    *)
 (*        a byte carries one of two values (0/1), enough to expose lost,   *)
 (*        displaced and stale bytes                                        *)
 (*   o  = <<ack, err, lane_0, ..., lane_(L-1)>>  (read data, whole bytes)  *)
+(*        followed, with c.sside = 1, by the slave side of the adapter:    *)
+(*        <<s_cyc & s_stb, s_ack, s_we, s_adr>>                            *)
 (* c: lanes (L), words (master-visible words), init (byte values, master   *)
 (*    view, index adr*L+lane+1), readonly, nosel0 (1: sel = 0 not explored)*)
+(*    optional: junk (0/1), adrs (word addresses the master uses, <<>> =   *)
+(*    all), sels (sel masks the master uses, <<>> = all), sside (0/1),     *)
+(*    smap (documented slave word address of master word a at index a+1,   *)
+(*    <<>> = not judged), wi (witness slot)                                *)
 (***************************************************************************)
 EXTENDS Integers, Sequences, FiniteSets, TLC
 
@@ -22,19 +38,37 @@ VARIABLES mem,    \* master view of the memory: byte index (from 1) -> value
 cvars == <<mem, open, obs>>
 
 Bit(x, i) == (x \div (2^i)) % 2
+SeqSet(q) == {q[i] : i \in 1..Len(q)}
+Opt(c, f, d) == IF f \in DOMAIN c THEN c[f] ELSE d
+All(c) == 2^c.lanes - 1
+
+(* ---- witnesses against vacuity: printed once per TLC worker, collected by the harness ---- *)
+ASSUME \A i \in 1..500 : TLCSet(i, 0)
+Wit(c, k, name) ==
+  LET i == 10 + 8 * (Opt(c, "wi", 0) % 60) + k IN
+  IF TLCGet(i) = 0 THEN TLCSet(i, 1) /\ PrintT(<<"WIT", Opt(c, "wi", 0), name>>) ELSE TRUE
+WitIf(p, c, k, name) == IF p THEN Wit(c, k, name) ELSE TRUE
+
+Adrs(c) == IF Opt(c, "adrs", <<>>) = <<>> THEN 0..(c.words - 1) ELSE SeqSet(c.adrs)
+Sels(c) == IF Opt(c, "sels", <<>>) # <<>> THEN SeqSet(c.sels)
+           ELSE IF c.nosel0 = 1 THEN 1..All(c) ELSE 0..All(c)
+(* lines of a bus that is not requesting anything from this slave: a full-width write of ones to any word *)
+Junk(c) == IF Opt(c, "junk", 0) = 0 THEN {}
+           ELSE { <<q, a, 1, All(c), All(c)>> : q \in {2, 3}, a \in 0..(c.words - 1) }
 
 Inputs(c) ==
   IF open # <<>>
   THEN { <<1, open[1], open[2], open[3], open[4]>> }          \* a request is held until acknowledged
-  ELSE { <<0, 0, 0, 0, 0>> } \cup
-       { <<1, a, 0, sl, 0>> : a \in 0..(c.words - 1), sl \in (IF c.nosel0 = 1 THEN 1..(2^c.lanes - 1) ELSE 0..(2^c.lanes - 1)) } \cup
-       { <<1, a, 1, sl, x>> : a \in 0..(c.words - 1), sl \in (IF c.nosel0 = 1 THEN 1..(2^c.lanes - 1) ELSE 0..(2^c.lanes - 1)),
-                              x \in 0..(2^c.lanes - 1) }
+  ELSE { <<0, 0, 0, 0, 0>> } \cup Junk(c) \cup
+       { <<1, a, 0, sl, 0>> : a \in Adrs(c), sl \in Sels(c) } \cup
+       { <<1, a, 1, sl, x>> : a \in Adrs(c), sl \in Sels(c), x \in 0..All(c) }
+
+ObsInit == [okread |-> TRUE, okack |-> TRUE, okerr |-> TRUE, okmap |-> TRUE, pending |-> FALSE]
 
 CInit ==
   /\ mem = [b \in 1..8 |-> 0]     \* overwritten by MemInit in the drivers' Init
   /\ open = <<>>
-  /\ obs = [okread |-> TRUE, okack |-> TRUE, okerr |-> TRUE, pending |-> FALSE]
+  /\ obs = ObsInit
 
 MemInit(c) == [b \in 1..(c.words * c.lanes) |-> c.init[b]]
 
@@ -48,6 +82,14 @@ CStep(c, iv, o) ==
       B(l) == adr * c.lanes + l + 1              \* byte index of lane l (from 0) of the addressed word
       okread == (ack /\ req /\ we = 0) =>
                   \A l \in 0..(c.lanes - 1) : Bit(sel, l) = 1 => o[3 + l] = mem[B(l)]
+      \* ---- slave side of the adapter (only looked at when c.sside = 1) ----
+      ss   == Opt(c, "sside", 0) = 1
+      x0   == 2 + c.lanes
+      sreq == ss /\ o[x0 + 1] = 1
+      sack == ss /\ o[x0 + 2] = 1
+      swe  == IF ss THEN o[x0 + 3] ELSE 0
+      sadr == IF ss THEN o[x0 + 4] ELSE 0
+      smap == Opt(c, "smap", <<>>)
   IN
   /\ mem' = IF ack /\ req /\ we = 1 /\ c.readonly = 0
             THEN [b \in DOMAIN mem |->
@@ -58,9 +100,16 @@ CStep(c, iv, o) ==
   /\ obs' = [okread |-> okread,
              okack |-> (ack => req),            \* an acknowledge only for a pending request: exactly one per cycle
              okerr |-> (o[2] = 0),
+             okmap |-> ((smap # <<>> /\ req /\ sreq) => sadr = smap[adr + 1]),
              pending |-> (req /\ ~ack)]
+  /\ WitIf(iv[1] = 2, c, 1, "write-shaped lines with cyc high and stb low")
+  /\ WitIf(iv[1] = 3, c, 2, "write-shaped lines with cyc low and stb high")
+  /\ WitIf(sreq /\ sack /\ swe = 1, c, 3, "slave-side write acknowledged")
+  /\ WitIf(sreq /\ sack /\ swe = 0, c, 4, "slave-side read acknowledged")
+  /\ WitIf(smap # <<>> /\ req /\ sreq /\ sadr # adr, c, 5, "slave-side address differs from the master's")
 
 ReadReturnsLastWrite == obs.okread    \* per byte: last enabled write or initial content
 OneAckPerCycle       == obs.okack
 NoBusError           == obs.okerr
+SlaveAddressMapped   == obs.okmap     \* remapper: the word the slave is asked for is the documented image of the master's
 =============================================================================
